@@ -103,7 +103,8 @@ class Gen:
     a list of ("prop", name) | ("elem",) | ("val",) | ("item", i) | ("alt", i) that the
     generation follows from the root; off the path it behaves per maxdepth/p_opt."""
 
-    def __init__(self, mm, rng, maxdepth=4, p_opt=0.5, int_decimals=False, custom_enum_p=0.3, arr_lens=(0, 1, 1, 2, 3)):
+    def __init__(self, mm, rng, maxdepth=4, p_opt=0.5, int_decimals=False, custom_enum_p=0.3, arr_lens=(0, 1, 1, 2, 3), open_extras=True):
+        self.open_extras = open_extras
         self.mm = mm
         self.r = rng
         self.maxdepth = maxdepth
@@ -167,7 +168,7 @@ class Gen:
             if n in mm.S:
                 pr = mm.flat_props(n)
                 if not pr:
-                    return ("obj", "open", {}) if r.random() < 0.5 else ("leaf", {"lspExtension": self.any(2)})
+                    return ("obj", "open", {}) if (r.random() < 0.5 or not self.open_extras) else ("leaf", {"lspExtension": self.any(2)})
                 return self.obj(n, pr, d, steps)
             if n in mm.E:
                 e = mm.E[n]
@@ -225,7 +226,7 @@ class Gen:
         if k == "literal":
             pr = mm.lit_props(t)
             if not pr:
-                return ("leaf", r.choice([{}, {"ext": 1}]))
+                return ("leaf", r.choice([{}, {"ext": 1}]) if self.open_extras else {})
             return self.obj("lit:" + ",".join(pr), pr, d, steps)
         raise ValueError(k)
 
